@@ -962,6 +962,37 @@ func (env *SpecEnv) evalCall(e *Expr) (Val, error) {
 			return Val{}, err
 		}
 		return Val{T: ifTag(a.T)}, nil
+	case "allocated":
+		a, err := env.eval(e.Args[0])
+		if err != nil {
+			return Val{}, err
+		}
+		al := env.alloc
+		if al == nil {
+			al = env.s.alloc
+		}
+		r := a.T
+		if r.Sort == SSlice {
+			r = slArr(r)
+		} else if r.Sort == SIface {
+			r = ifVal(r)
+		}
+		return tv(ILt(r, al), boolT), nil
+	case "isobj":
+		// isobj(p, T): p points to an object allocated with (named struct) type T
+		if err := argN(2); err != nil {
+			return Val{}, err
+		}
+		a, err := env.eval(e.Args[0])
+		if err != nil {
+			return Val{}, err
+		}
+		t, err := env.resolveType(strings.Trim(e.Args[1].String(), "()"))
+		if err != nil {
+			return Val{}, err
+		}
+		x.eng.reg.AddFun("rtype", []string{SInt}, SInt)
+		return tv(Eq(App("rtype", SInt, a.T), IntLit(int64(x.eng.tagOf(t)))), boolT), nil
 	case "nilIface":
 		return Val{T: nilIface}, nil
 	case "iface":
